@@ -1652,6 +1652,29 @@ fintStmt(DataObj retDataObj)
 	case FOAM_Values:
 	case FOAM_Catch:
 	case FOAM_EEnsure:
+	/* Bare references and literals: we get things like that when we -q0
+	 * (deadvar is effective in killing them).  They have to be evaluated,
+	 * not skipped: their operands follow the tag on the tape. */
+	case FOAM_Lex:
+	case FOAM_Loc:
+	case FOAM_Par:
+	case FOAM_Glo:
+	case FOAM_Fluid:
+	case FOAM_Const:
+	case FOAM_AElt:
+	case FOAM_RElt:
+	case FOAM_RRElt:
+	case FOAM_IRElt:
+	case FOAM_TRElt:
+	case FOAM_EElt:
+	case FOAM_Char:
+	case FOAM_Byte:
+	case FOAM_Bool:
+	case FOAM_HInt:
+	case FOAM_SInt:
+	case FOAM_BInt:
+	case FOAM_SFlo:
+	case FOAM_DFlo:
 		ip = stmtPos;
 		(void)fintEval(&expr); /* we ignore the ret value */
 		break;
@@ -1660,8 +1683,6 @@ fintStmt(DataObj retDataObj)
 		fintDEBUG(dbOut, "(Label %d)\n", n);
 		break;
 	case FOAM_Nil:
-	case FOAM_Lex: /* we get things like that when we -q0 (deadvar
-			is effective in killing them */
 	case FOAM_NOp:
 		break;
 	default:
